@@ -377,8 +377,15 @@ class CHECK(Check):
             tb = e.__traceback__
             while tb is not None:
                 if tb.tb_frame.f_code.co_name == "_call_oracle":
-                    sw = tb.tb_frame.f_locals.get("signed_weights")
-                    zero = sw is not None and float(np.abs(np.asarray(sw, dtype=float)).sum()) == 0.0
+                    # name-independent (a rename of the local must not turn the known finding into an alarm): some
+                    # numeric per-row vector of the frame is identically 0, i.e. the signed weights all vanished
+                    for v in list(tb.tb_frame.f_locals.values()):
+                        try:
+                            a = np.asarray(v, dtype=float)
+                        except (TypeError, ValueError):
+                            continue
+                        if a.ndim == 1 and a.shape[0] == len(case["y"]) and float(np.abs(a).sum()) == 0.0:
+                            zero = True
                 tb = tb.tb_next
             return {"exc": "ValueError", "zero_signed_weights_in_call_oracle": bool(zero)}
         vals = sorted(set(case["x"]))
